@@ -180,14 +180,15 @@ soa_struct!(clone, pub struct NFirstF { pub x: Tk<0>, pub y: B1, pub c: Tk<4> })
 shape!(NFirstF, NFirstFVec, NFirstFSlice, NFirstFSliceMut, NFirstFRef, NFirstFRefMut, NFirstFPtr, NFirstFPtrMut, drops=false, [(x leaf Tk<0>), (y leaf B1), (c leaf Tk<4>)]);
 
 // field names that are also names of locals and parameters inside the generated code (`index`, `len`, `value`, `other`,
-// `val`), `val` last and `Copy` (a capture of the parameter `val` then still type-checks)
+// `field`, `val`), `val` last and `Copy` (a capture of the parameter `val` then still type-checks), `field` followed by a
+// member of its own type (a capture of the per-field temporary `field` then still type-checks)
 // (written out, not through `soa_struct!`: identifiers that pass through a `macro_rules!` expansion get another hygiene
 //  context than the derive's own locals and could never capture them — the other shapes cannot show such a capture)
 #[derive(Debug, Clone, PartialEq, Eq, PartialOrd, Ord, StructOfArray)]
 #[soa_derive(Debug, Clone, PartialEq, Eq, PartialOrd, Ord)]
-pub struct Hyg { pub index: Tk<0>, pub len: B1, pub value: Tk<4>, pub other: Tk<4>, pub val: Pl }
+pub struct Hyg { pub index: Tk<0>, pub len: B1, pub value: Tk<4>, pub other: Tk<4>, pub field: Pl, pub val: Pl }
 shape!(Hyg, HygVec, HygSlice, HygSliceMut, HygRef, HygRefMut, HygPtr, HygPtrMut, drops=false,
-    [(index leaf Tk<0>), (len leaf B1), (value leaf Tk<4>), (other leaf Tk<4>), (val leaf Pl)]);
+    [(index leaf Tk<0>), (len leaf B1), (value leaf Tk<4>), (other leaf Tk<4>), (field leaf Pl), (val leaf Pl)]);
 
 // every field nested, the same nested type twice (a swap of the two nested columns type-checks); only zero-sized fields
 soa_struct!(clone, pub struct N2 { #[nested_soa] pub p: Inner, #[nested_soa] pub q: Inner });
